@@ -100,6 +100,8 @@ type dealer struct {
 
 	actionChan chan func()
 	stopped    chan struct{}
+	// closing is closed when the dealer begins to stop, to end call timers.
+	closing chan struct{}
 
 	// Generate registration IDs.
 	idGen *wamp.IDGen
@@ -141,6 +143,7 @@ func newDealer(logger stdlog.StdLog, strictURI, allowDisclose, debug bool) *deal
 		// channel is appropriate.
 		actionChan: make(chan func()),
 		stopped:    make(chan struct{}),
+		closing:    make(chan struct{}),
 
 		idGen: new(wamp.IDGen),
 		prng:  rand.New(rand.NewSource(time.Now().Unix())), //nolint:gosec // used for call invocation
@@ -404,6 +407,9 @@ func (d *dealer) removeSession(sess *wamp.Session) {
 
 // close stops the dealer, letting already queued actions finish.
 func (d *dealer) close() {
+	// Stop the timers of calls that are still pending, so that none of them
+	// posts a cancel action after the action channel is closed.
+	close(d.closing)
 	close(d.actionChan)
 	<-d.stopped
 	if d.debug {
@@ -919,17 +925,26 @@ func (d *dealer) syncCall(caller *wamp.Session, msg *wamp.Call) {
 		// Start goroutine to cancel pending call on timeout. Works like Cancel
 		// with mode=killnowait, and includes an error message argument "call
 		// timeout"
+		timerCancel := invk.timerCancel
 		go func() {
-			<-timerCtx.Done()
+			defer timerCancel()
+			select {
+			case <-timerCtx.Done():
+			case <-d.closing:
+				return
+			}
 			if errors.Is(timerCtx.Err(), context.Canceled) {
 				// Timer canceled. Got response from callee, or caller canceled
 				// or ended session.
 				return
 			}
-			d.actionChan <- func() {
+			select {
+			case d.actionChan <- func() {
 				errArgs := wamp.List{"call timeout"}
 				d.syncCancel(caller, &wamp.Cancel{Request: msg.Request},
 					wamp.CancelModeKillNoWait, wamp.ErrTimeout, errArgs)
+			}:
+			case <-d.closing:
 			}
 		}()
 	}
